@@ -50,7 +50,17 @@ def trace_part(chk, tier):
         asts = [gen.rand_list(rng, depth=rng.choice([1, 2, 2, 3])) for _ in range(nsel)]
         els = [i + 1 for i, kk in enumerate(d['kind']) if kk == 'e']
         targets = [0] + ([rng.choice(els)] if len(els) > 1 else [])
-        jobs.append(('d%d' % k, d, asts, targets, None))
+        nsmap = None
+        if k % 4 == 3:
+            # namespaced trees: same-named siblings in different namespaces (one URI through several prefixes, one prefix or none for several
+            # URIs): "the same type" of the -of-type pseudo-classes is name + namespace URI; type selectors without a default namespace see all
+            for i in els:
+                r = rng.random()
+                d['ns'][i - 1] = common.cps('urn:a') if r < 0.4 else common.cps('urn:b') if r < 0.7 else []
+                if d['ns'][i - 1]:
+                    d['pfx'][i - 1] = common.cps(rng.choice(['', '', 'p', 'q']))
+            nsmap = {'p': 'urn:b'}
+        jobs.append(('d%d' % k, d, asts, targets, nsmap))
     trace.SPELL_SEED = common.SEED          # the selector texts are random respellings of the generated ASTs
     try:
         lines = trace.record_select(jobs)
